@@ -122,6 +122,9 @@ func c17scenario(impl, name string, ops []c17op, clock []time.Duration, expire m
 			if e, ok := expire[duty]; ok {
 				return start.Add(e), true
 			}
+			if duty.Type == core.DutyExit || duty.Type == core.DutyBuilderRegistration {
+				return time.Time{}, false // never expires, as in core.NewDutyDeadlineFunc: the deadliner answers DeadlineExempt
+			}
 			return start.Add(1000 * time.Hour), true
 		})
 		if impl == "v1" {
@@ -435,6 +438,12 @@ func c17scenarios() []*schedx.Scenario {
 		add("1r1w", []c17op{R("R1", c17K1), W("W1", c17K1, 1)}, nil, nil)
 		add("2r-same-key-1w", []c17op{R("R1", c17K1), R("R2", c17K1), W("W1", c17K1, 1)}, nil, nil)
 		add("2r-2keys-2w", []c17op{R("R1", c17K1), R("R2", c17K2), W("W1", c17K1, 1), W("W2", c17K2, 2)}, nil, nil)
+		// duty types that never expire (voluntary exit, builder registration): the deadliner answers "exempt", not "scheduled"
+		kx := c17key{core.Duty{Slot: 12, Type: core.DutyExit}, "A"}
+		kb := c17key{core.Duty{Slot: 0, Type: core.DutyBuilderRegistration}, "A"}
+		add("exempt-2r-2keys-2w", []c17op{R("R1", kx), R("R2", kb), W("W1", kx, 1), W("W2", kb, 2)}, nil, nil)
+		add("exempt-r-conflicting-writes", []c17op{R("R1", kx), W("W1", kx, 1), W("W2", kx, 2)}, nil, nil)
+		add("exempt-w-w-r", []c17op{W("W1", kb, 1), W("W2", kb, 2), R("R1", kb)}, nil, nil)
 		add("2r-sameduty-2w", []c17op{R("R1", c17K1), R("R2", c17K3), W("W1", c17K1, 1), W("W2", c17K3, 2)}, nil, nil)
 		add("r-conflicting-writes", []c17op{R("R1", c17K1), W("W1", c17K1, 1), W("W2", c17K1, 2)}, nil, nil)
 		// different content under the same signature bytes is different data all the same
